@@ -213,6 +213,9 @@ class Multi:
         self.captures = []  # (thread, expected string, got string)
         self.drained = []  # token lists returned by clearing exports taken while threads print
         self.captured_tokens = set()
+        self.capture_print_open = {}  # tid -> heights of the frames a captured print may be rendering right now
+        self.phantom_seq = None
+        self.capturing = {}  # tid -> depth of capture() blocks the thread is in
         self.optional = set()  # first tokens of payloads whose write the file refused
         self.n = len(case["threads"])
         self.done = 0
@@ -234,7 +237,7 @@ class Multi:
             if self.oracle is not None:
                 self.oracle.client_tids.add(th.tid)
         if self.oracle is not None:
-            self.file.on_write = self.oracle.on_write
+            self.file.on_write = self._on_write
 
     # -- display -------------------------------------------------------------
     def _build_display(self):
@@ -429,6 +432,8 @@ class Multi:
                 self.probes["print_in_capture_while_live"] += 1
                 on_screen = len(o.frame) if o.frame else 0
                 if any(len(fr) != on_screen for fr in self.frames("frame")):
+                    if not self.phantom:
+                        self.phantom_seq = self.sim.seq
                     self.phantom = True
                     o.tags.add("phantom-frame")
 
@@ -436,10 +441,24 @@ class Multi:
             o.begin_op(["capture"], [])
         phantom_check()
         n0 = len(self.file.writes)
-        with self.console.capture() as cap:
-            for x in op[1]:
-                self._emit(x, t)
-            phantom_check()
+        me = self.sim.me().tid
+        if o is not None and o.tracker:
+            # ... and at the very moment a print inside the block meets the display hook: another
+            # thread may have restarted the display after the block was entered and drawn its first
+            # frame before the block is left (thorough soak, VERIF_SEED 4242 / 4250)
+            o.tracker.on_hook_eval = self._hook_eval_in_capture
+        self.capturing[me] = self.capturing.get(me, 0) + 1
+        self._phantom_check = phantom_check
+        try:
+            with self.console.capture() as cap:
+                for x in op[1]:
+                    self._emit(x, t)
+                    self._window_sample()
+                    self.capture_print_open.pop(me, None)
+                phantom_check()
+        finally:
+            self.capturing[me] -= 1
+            self.capture_print_open.pop(me, None)
         got = cap.get()
         mine = [w for w in self.file.writes[n0:] if w[1] == self.sim.me().tid]
         if mine:
@@ -447,6 +466,33 @@ class Multi:
         self.captures.append((t, exp, got))
         if o is not None and not nested:
             o.end_op()
+
+    def _hook_eval_in_capture(self, tid):
+        """A print inside capture() has just met the display hook: from now until that print returns
+        it renders the frame and stores its shape at a moment the harness cannot see.  F7 explains a
+        later violation iff at some moment of that window the frame height on the screen differed
+        from the height of the frame the print renders (sampled here, after every write that reaches
+        the file meanwhile, and when the print returns)."""
+        if self.capturing.get(tid):
+            self._phantom_check()
+            self.capture_print_open[tid] = set(len(fr) for fr in self.frames("frame"))
+            self._window_sample()
+
+    def _window_sample(self):
+        o = self.oracle
+        if not self.capture_print_open or o is None:
+            return
+        on_screen = len(o.frame) if (o.hooked and o.frame) else 0
+        for heights in self.capture_print_open.values():
+            if any(h != on_screen for h in heights):
+                if not self.phantom:
+                    self.phantom_seq = self.sim.seq
+                self.phantom = True
+                o.tags.add("phantom-frame")
+
+    def _on_write(self, seq, tid, text):
+        self.oracle.on_write(seq, tid, text)
+        self._window_sample()
 
     def do(self, t, op, top=False):
         o = self.oracle
@@ -581,7 +627,8 @@ class Multi:
             self._check_record(writes)
         if self.oracle is not None and self.oracle.viol is not None:
             v = dict(self.oracle.viol)
-            if v["sig"] not in ("overlapping-critical-spans",) and self.phantom and "phantom-frame" in self.oracle.tags:
+            if (v["sig"] not in ("overlapping-critical-spans",) and self.phantom and "phantom-frame" in self.oracle.tags
+                    and self.phantom_seq is not None and self.phantom_seq <= v.get("seq", self.phantom_seq)):
                 v["sig"] = "phantom-frame"
             if v["sig"] == "overlapping-critical-spans":
                 self.probes["overlap_explained"] += 1
